@@ -249,20 +249,77 @@ class Dispatch(Family):
 # lookup_class_with_patches vs the model chase
 # ------------------------------------------------------------------------------------------
 
+import types  # noqa: E402
+import importlib.util  # noqa: E402
+
+
+def _patch_names():
+    out = []
+    for k, v in S.PATH_PATCHES.items():
+        for n in (k, v):
+            if n not in out:
+                out.append(n)
+    return out
+
+
+def _importable(names):
+    """the environment: which names `lookup_class` (un-patched) finds right now"""
+    ok = []
+    for n in names:
+        try:
+            lookup_class(n)
+            ok.append(n)
+        except ValueError:
+            pass
+    return ok
+
+
+def _install_stubs():
+    """Simulate an environment in which the external packages the table points to (glue_qt, ...) are
+    installed: for every patch target outside `glue.` whose top-level package does not exist here, a
+    stub module chain is put into sys.modules and the target attribute is a fresh class.
+    -> names of the modules added"""
+    added = []
+    for t in _patch_names():
+        if t.startswith("glue.") or "." not in t:
+            continue
+        mod, attr = t.rsplit(".", 1)
+        parts = mod.split(".")
+        top = parts[0]
+        if top not in added and (top in sys.modules or importlib.util.find_spec(top) is not None):
+            continue  # really installed: leave it alone
+        for i in range(1, len(parts) + 1):
+            name = ".".join(parts[:i])
+            if name not in sys.modules:
+                m = types.ModuleType(name)
+                m.__path__ = []
+                sys.modules[name] = m
+                added.append(name)
+                if i > 1:
+                    setattr(sys.modules[".".join(parts[:i - 1])], parts[i - 1], m)
+        if not hasattr(sys.modules[mod], attr):
+            setattr(sys.modules[mod], attr, type(attr, (), {"__module__": mod}))
+    return added
+
+
+def _remove_stubs(added):
+    for name in added:
+        sys.modules.pop(name, None)
+
+
 class Patch(Family):
+    """The real `lookup_class_with_patches` under two environments: the one of this machine, and one in
+    which the external packages the table redirects to are importable (stub modules in sys.modules).
+    Observed: the names handed to `lookup_class` (recording spy around the module attribute), whether
+    a ValueError came out, and under which name the returned object was found."""
     name = "patch"
     exhaustive = True
     max_jobs = 1
-    case_timeout = 10.0
+    case_timeout = 20.0
+    _env = {}
 
     def cases(self, tier, rng):
-        P = S.PATH_PATCHES
-        seen = []
-        for k, v in P.items():
-            for n in (k, v):
-                if n not in seen:
-                    seen.append(n)
-        for n in seen:
+        for n in _patch_names():
             yield n
         for n in ["glue.core.data.Data", "glue.core.subset.AndState", "glue.core.roi.RectangularROI",
                   "glue.core.component.Component", "builtins.dict", "numpy.ndarray",
@@ -270,25 +327,51 @@ class Patch(Family):
                   "glue.core.data.NoSuchClass"]:
             yield n
 
-    def run_impl(self, case):
+    def _situation(self, case, tag):
+        if tag not in Patch._env:
+            Patch._env[tag] = _importable(_patch_names())
+        env = list(Patch._env[tag])
+        if case not in env and _importable([case]):
+            env.append(case)
         calls = []
         real = S.lookup_class
 
         def spy(ref):
-            calls.append(ref)
-            return real(ref)
+            try:
+                obj = real(ref)
+            except ValueError:
+                calls.append([ref, False])
+                raise
+            calls.append([ref, True])
+            return obj
         S.lookup_class = spy
         try:
             try:
-                S.lookup_class_with_patches(case)
+                obj = S.lookup_class_with_patches(case)
                 status = "ok"
             except ValueError:
+                obj = None
                 status = "value-error"
         finally:
             S.lookup_class = real
-        if len(calls) != 1:
-            return ["no-single-lookup", status]
-        return [calls[0], status]
+        result = None
+        if status == "ok":
+            # the name under which the returned object was found (identity with what lookup_class gives)
+            for ref, ok in calls:
+                if ok and real(ref) is obj:
+                    result = ref
+            if result is None:
+                result = "not-from-lookup-class"
+        return [env, [c[0] for c in calls], status, result]
+
+    def run_impl(self, case):
+        a = self._situation(case, "here")
+        added = _install_stubs()
+        try:
+            b = self._situation(case, "stubbed")
+        finally:
+            _remove_stubs(added)
+        return [a, b]
 
     def nontrivial(self, case, po):
         return case in S.PATH_PATCHES
@@ -297,6 +380,8 @@ class Patch(Family):
         br = res.get("br", "")
         if br == "captured-listed":
             return {"construct": "captured-live-class-listed-in-F12"}
+        if br == "captured-unloadable":
+            return {"construct": "captured-live-class-unloadable", "key": case}
         if br == "captured-unlisted":
             return {"construct": "captured-live-class-NOT-listed", "key": case}
         return {"construct": str(br)}
@@ -1258,6 +1343,7 @@ PROP = Property(
         "C12.versioned_inv", "C12.versioned_set", "C12.versioned_never_overwritten",
         "C12.versioned_refines_spec", "C12.save_uses_newest", "C12.orig_set_violates_inv",
         "C12.chase_terminates_of_check", "C12.chase_acyclic_of_check", "C12.chase_deterministic",
+        "C12.lookup_fallback_spec", "C12.lookup_with_patches_total", "C12.captured_live_class_still_loads",
         "C12.patches_terminate", "C12.patches_acyclic", "C12.patches_fixpoint_not_key",
         "C12.patch_keys_unique", "C12.patch_targets_importable", "C12.no_capture_partial",
         "C12.no_capture_witness_F12", "C12.registry_consecutive", "C12.saver_loader_versions_match",
